@@ -109,3 +109,126 @@ def Defs.holeFree : Defs → Bool
   | .nil => true
   | .cons _ a d r => a.holeFree && d.holeFree && r.holeFree
 end
+
+mutual
+theorem Tm.eq_of_beq : ∀ (a b : Tm), Tm.beq a b = true → a = b
+  | .hole i s, .hole j r, h => by simp [Tm.beq] at h; simp [h]
+  | .type, .type, _ | .int, .int, _ | .bool, .bool, _ | .tt, .tt, _ | .ff, .ff, _ => rfl
+  | .lit n, .lit m, h => by simp [Tm.beq] at h; simp [h]
+  | .var x i, .var y j, h => by simp [Tm.beq] at h; simp [h]
+  | .lam x im d b, .lam y jm e c, h => by
+      simp [Tm.beq] at h
+      obtain ⟨⟨⟨h1, h2⟩, h3⟩, h4⟩ := h
+      simp [h1, h2, Tm.eq_of_beq d e h3, Tm.eq_of_beq b c h4]
+  | .pi x im d b, .pi y jm e c, h => by
+      simp [Tm.beq] at h
+      obtain ⟨⟨⟨h1, h2⟩, h3⟩, h4⟩ := h
+      simp [h1, h2, Tm.eq_of_beq d e h3, Tm.eq_of_beq b c h4]
+  | .app f a, .app g b, h => by
+      simp [Tm.beq] at h
+      simp [Tm.eq_of_beq f g h.1, Tm.eq_of_beq a b h.2]
+  | .letg ds b, .letg es c, h => by
+      simp [Tm.beq] at h
+      simp [Defs.eq_of_beq ds es h.1, Tm.eq_of_beq b c h.2]
+  | .neg a, .neg b, h => by
+      simp [Tm.beq] at h
+      simp [Tm.eq_of_beq a b h]
+  | .bin o a b, .bin p c d, h => by
+      simp [Tm.beq] at h
+      obtain ⟨⟨h1, h2⟩, h3⟩ := h
+      simp [h1, Tm.eq_of_beq a c h2, Tm.eq_of_beq b d h3]
+  | .ite a b c, .ite d e f, h => by
+      simp [Tm.beq] at h
+      obtain ⟨⟨h1, h2⟩, h3⟩ := h
+      simp [Tm.eq_of_beq a d h1, Tm.eq_of_beq b e h2, Tm.eq_of_beq c f h3]
+  | .hole .., .type, h | .hole .., .int, h | .hole .., .bool, h | .hole .., .tt, h
+  | .hole .., .ff, h | .hole .., .lit _, h | .hole .., .var .., h | .hole .., .lam .., h
+  | .hole .., .pi .., h | .hole .., .app .., h | .hole .., .letg .., h | .hole .., .neg _, h
+  | .hole .., .bin .., h | .hole .., .ite .., h => by simp [Tm.beq] at h
+  | .type, .hole .., h | .type, .int, h | .type, .bool, h | .type, .tt, h
+  | .type, .ff, h | .type, .lit _, h | .type, .var .., h | .type, .lam .., h
+  | .type, .pi .., h | .type, .app .., h | .type, .letg .., h | .type, .neg _, h
+  | .type, .bin .., h | .type, .ite .., h => by simp [Tm.beq] at h
+  | .int, .hole .., h | .int, .type, h | .int, .bool, h | .int, .tt, h
+  | .int, .ff, h | .int, .lit _, h | .int, .var .., h | .int, .lam .., h
+  | .int, .pi .., h | .int, .app .., h | .int, .letg .., h | .int, .neg _, h
+  | .int, .bin .., h | .int, .ite .., h => by simp [Tm.beq] at h
+  | .bool, .hole .., h | .bool, .type, h | .bool, .int, h | .bool, .tt, h
+  | .bool, .ff, h | .bool, .lit _, h | .bool, .var .., h | .bool, .lam .., h
+  | .bool, .pi .., h | .bool, .app .., h | .bool, .letg .., h | .bool, .neg _, h
+  | .bool, .bin .., h | .bool, .ite .., h => by simp [Tm.beq] at h
+  | .tt, .hole .., h | .tt, .type, h | .tt, .int, h | .tt, .bool, h
+  | .tt, .ff, h | .tt, .lit _, h | .tt, .var .., h | .tt, .lam .., h
+  | .tt, .pi .., h | .tt, .app .., h | .tt, .letg .., h | .tt, .neg _, h
+  | .tt, .bin .., h | .tt, .ite .., h => by simp [Tm.beq] at h
+  | .ff, .hole .., h | .ff, .type, h | .ff, .int, h | .ff, .bool, h
+  | .ff, .tt, h | .ff, .lit _, h | .ff, .var .., h | .ff, .lam .., h
+  | .ff, .pi .., h | .ff, .app .., h | .ff, .letg .., h | .ff, .neg _, h
+  | .ff, .bin .., h | .ff, .ite .., h => by simp [Tm.beq] at h
+  | .lit _, .hole .., h | .lit _, .type, h | .lit _, .int, h | .lit _, .bool, h
+  | .lit _, .tt, h | .lit _, .ff, h | .lit _, .var .., h | .lit _, .lam .., h
+  | .lit _, .pi .., h | .lit _, .app .., h | .lit _, .letg .., h | .lit _, .neg _, h
+  | .lit _, .bin .., h | .lit _, .ite .., h => by simp [Tm.beq] at h
+  | .var .., .hole .., h | .var .., .type, h | .var .., .int, h | .var .., .bool, h
+  | .var .., .tt, h | .var .., .ff, h | .var .., .lit _, h | .var .., .lam .., h
+  | .var .., .pi .., h | .var .., .app .., h | .var .., .letg .., h | .var .., .neg _, h
+  | .var .., .bin .., h | .var .., .ite .., h => by simp [Tm.beq] at h
+  | .lam .., .hole .., h | .lam .., .type, h | .lam .., .int, h | .lam .., .bool, h
+  | .lam .., .tt, h | .lam .., .ff, h | .lam .., .lit _, h | .lam .., .var .., h
+  | .lam .., .pi .., h | .lam .., .app .., h | .lam .., .letg .., h | .lam .., .neg _, h
+  | .lam .., .bin .., h | .lam .., .ite .., h => by simp [Tm.beq] at h
+  | .pi .., .hole .., h | .pi .., .type, h | .pi .., .int, h | .pi .., .bool, h
+  | .pi .., .tt, h | .pi .., .ff, h | .pi .., .lit _, h | .pi .., .var .., h
+  | .pi .., .lam .., h | .pi .., .app .., h | .pi .., .letg .., h | .pi .., .neg _, h
+  | .pi .., .bin .., h | .pi .., .ite .., h => by simp [Tm.beq] at h
+  | .app .., .hole .., h | .app .., .type, h | .app .., .int, h | .app .., .bool, h
+  | .app .., .tt, h | .app .., .ff, h | .app .., .lit _, h | .app .., .var .., h
+  | .app .., .lam .., h | .app .., .pi .., h | .app .., .letg .., h | .app .., .neg _, h
+  | .app .., .bin .., h | .app .., .ite .., h => by simp [Tm.beq] at h
+  | .letg .., .hole .., h | .letg .., .type, h | .letg .., .int, h | .letg .., .bool, h
+  | .letg .., .tt, h | .letg .., .ff, h | .letg .., .lit _, h | .letg .., .var .., h
+  | .letg .., .lam .., h | .letg .., .pi .., h | .letg .., .app .., h | .letg .., .neg _, h
+  | .letg .., .bin .., h | .letg .., .ite .., h => by simp [Tm.beq] at h
+  | .neg _, .hole .., h | .neg _, .type, h | .neg _, .int, h | .neg _, .bool, h
+  | .neg _, .tt, h | .neg _, .ff, h | .neg _, .lit _, h | .neg _, .var .., h
+  | .neg _, .lam .., h | .neg _, .pi .., h | .neg _, .app .., h | .neg _, .letg .., h
+  | .neg _, .bin .., h | .neg _, .ite .., h => by simp [Tm.beq] at h
+  | .bin .., .hole .., h | .bin .., .type, h | .bin .., .int, h | .bin .., .bool, h
+  | .bin .., .tt, h | .bin .., .ff, h | .bin .., .lit _, h | .bin .., .var .., h
+  | .bin .., .lam .., h | .bin .., .pi .., h | .bin .., .app .., h | .bin .., .letg .., h
+  | .bin .., .neg _, h | .bin .., .ite .., h => by simp [Tm.beq] at h
+  | .ite .., .hole .., h | .ite .., .type, h | .ite .., .int, h | .ite .., .bool, h
+  | .ite .., .tt, h | .ite .., .ff, h | .ite .., .lit _, h | .ite .., .var .., h
+  | .ite .., .lam .., h | .ite .., .pi .., h | .ite .., .app .., h | .ite .., .letg .., h
+  | .ite .., .neg _, h | .ite .., .bin .., h => by simp [Tm.beq] at h
+theorem Defs.eq_of_beq : ∀ (a b : Defs), Defs.beq a b = true → a = b
+  | .nil, .nil, _ => rfl
+  | .cons x a d r, .cons y b e s, h => by
+      simp [Defs.beq] at h
+      obtain ⟨⟨⟨h1, h2⟩, h3⟩, h4⟩ := h
+      simp [h1, Tm.eq_of_beq a b h2, Tm.eq_of_beq d e h3, Defs.eq_of_beq r s h4]
+  | .nil, .cons .., h | .cons .., .nil, h => by simp [Defs.beq] at h
+end
+
+mutual
+theorem Tm.beq_refl : ∀ (a : Tm), Tm.beq a a = true
+  | .hole .. | .type | .int | .bool | .tt | .ff | .lit _ | .var .. => by simp [Tm.beq]
+  | .lam _ _ d b => by simp [Tm.beq, Tm.beq_refl d, Tm.beq_refl b]
+  | .pi _ _ d b => by simp [Tm.beq, Tm.beq_refl d, Tm.beq_refl b]
+  | .app f a => by simp [Tm.beq, Tm.beq_refl f, Tm.beq_refl a]
+  | .letg ds b => by simp [Tm.beq, Defs.beq_refl ds, Tm.beq_refl b]
+  | .neg a => by simp [Tm.beq, Tm.beq_refl a]
+  | .bin _ a b => by simp [Tm.beq, Tm.beq_refl a, Tm.beq_refl b]
+  | .ite a b c => by simp [Tm.beq, Tm.beq_refl a, Tm.beq_refl b, Tm.beq_refl c]
+theorem Defs.beq_refl : ∀ (a : Defs), Defs.beq a a = true
+  | .nil => by simp [Defs.beq]
+  | .cons _ a d r => by simp [Defs.beq, Tm.beq_refl a, Tm.beq_refl d, Defs.beq_refl r]
+end
+
+instance : DecidableEq Tm := fun a b =>
+  if h : Tm.beq a b = true then isTrue (Tm.eq_of_beq a b h)
+  else isFalse (fun e => h (e ▸ Tm.beq_refl a))
+
+instance : DecidableEq Defs := fun a b =>
+  if h : Defs.beq a b = true then isTrue (Defs.eq_of_beq a b h)
+  else isFalse (fun e => h (e ▸ Defs.beq_refl a))
